@@ -285,8 +285,10 @@ func (rs *RoachSource) Delete() {
 // start 1 goroutine per UDP source to wait on the data and package it properly.
 func (rs *RoachSource) StartRun() error {
 	go func() {
-		defer rs.Delete()
+		// Deferred calls run last-in-first-out: close the devices first, and only then signal
+		// the end of the run by closing rs.nextBlock.
 		defer close(rs.nextBlock)
+		defer rs.Delete()
 		nextBlock := make(chan *dataBlock)
 		for _, dev := range rs.active {
 			go dev.readPackets(nextBlock)
